@@ -9,6 +9,17 @@ EMPTY = Ctx((), (), (), (), ())
 Raised = namedtuple("Raised", "event line")          # pseudo event: `event` raised inside a try body
 
 
+def conjuncts(cond):
+    """The literals a condition asserts when it holds: `a and b` asserts a, b; `not (a or b)` asserts
+    not a, not b; anything else asserts itself."""
+    if isinstance(cond, tuple) and cond:
+        if cond[0] == "and":
+            return tuple(x for c in cond[1] for x in conjuncts(c))
+        if cond[0] == "not" and isinstance(cond[1], tuple) and cond[1] and cond[1][0] == "or":
+            return tuple(x for c in cond[1][1] for x in conjuncts(ir.negate(c)))
+    return (cond,)
+
+
 def walk(events, ctx=EMPTY, structural=False):
     """Yield (event, ctx) for every leaf event (and structural ones if asked), in program order.
     ctx.loops: enclosing Loop events; ctx.guards: branch literals; ctx.tries: (Try, 'body'|handler)."""
@@ -16,8 +27,8 @@ def walk(events, ctx=EMPTY, structural=False):
         if isinstance(ev, ir.If):
             if structural:
                 yield ev, ctx
-            yield from walk(ev.then, ctx._replace(guards=ctx.guards + (ev.cond,)), structural)
-            yield from walk(ev.orelse, ctx._replace(guards=ctx.guards + (ir.negate(ev.cond),)), structural)
+            yield from walk(ev.then, ctx._replace(guards=ctx.guards + conjuncts(ev.cond)), structural)
+            yield from walk(ev.orelse, ctx._replace(guards=ctx.guards + conjuncts(ir.negate(ev.cond))), structural)
         elif isinstance(ev, ir.Loop):
             if structural:
                 yield ev, ctx
@@ -127,9 +138,11 @@ def paths(events, unroll=2, exc=False, limit=200000, _top=True):
 
 def _alts(ev, unroll, exc, limit):
     if isinstance(ev, ir.If):
-        g0 = (0,) if ev.fresh else (None,)
-        a = [Path((ev.cond,), gpos=g0).extend(p.guards, p.events, p.exit, p.gpos) for p in paths(ev.then, unroll, exc, limit, False)]
-        b = [Path((ir.negate(ev.cond),), gpos=g0).extend(p.guards, p.events, p.exit, p.gpos)
+        ct, ce = conjuncts(ev.cond), conjuncts(ir.negate(ev.cond))
+        gt = tuple((0 if ev.fresh else None) for _ in ct)
+        ge = tuple((0 if ev.fresh else None) for _ in ce)
+        a = [Path(ct, gpos=gt).extend(p.guards, p.events, p.exit, p.gpos) for p in paths(ev.then, unroll, exc, limit, False)]
+        b = [Path(ce, gpos=ge).extend(p.guards, p.events, p.exit, p.gpos)
              for p in paths(ev.orelse, unroll, exc, limit, False)]
         return [p for p in a + b if p.feasible()]
     if isinstance(ev, ir.Loop):
